@@ -64,7 +64,7 @@ def _solve1(pc, goal, timeout_ms, want_model=True, use_cvc5=True, quick_candidat
                     return "unsat", time.time() - t0, "z3-qf", None
                 if r == z3.sat and quick_candidate:
                     # vacuity (cover) checks only need 'not refuted': a model of the instantiated problem is enough
-                    return "candidate", time.time() - t0, "z3-qf-candidate", None
+                    return "candidate", time.time() - t0, "cover:z3-qf-model", None
                 if r == z3.sat and not st.get("truncated") and qf_model is None:
                     qf_model = s.model()
                 if r == z3.unknown:
